@@ -83,16 +83,43 @@ def rtypeOfCode (code : Nat) : Option RType :=
   if code = 1 then some .a else if code = 2 then some .ns else if code = 5 then some .cname
   else if code = 6 then some .soa else if code = 12 then some .ptr else if code = 15 then some .mx
   else if code = 16 then some .txt else if code = 28 then some .aaaa else if code = 33 then some .srv
-  else if code = 65305 then some .aname else none
+  else if code = 65305 then some .aname else if code = 13 then some .hinfo
+  else if code = 257 then some .caa else none
+
+theorem lookup_mem_gen {α β} [BEq α] [LawfulBEq α] {l : List (α × β)} {k : α} {v : β}
+    (h : l.lookup k = some v) : (k, v) ∈ l := by
+  induction l with
+  | nil => simp [List.lookup] at h
+  | cons p l ih =>
+    obtain ⟨k', v'⟩ := p
+    unfold List.lookup at h
+    split at h
+    · rename_i heq
+      have : k = k' := by simpa using heq
+      cases h; subst this; simp
+    · exact List.mem_cons_of_mem _ (ih h)
+
+/-- what the parser's disambiguation does with a type mnemonic of the table -/
+def typeRowOK (p : List Nat × Nat) : Prop :=
+  match rtypeOfCode p.2, p.1 with
+  | some t, x :: _ => (65 ≤ x ∧ x ≤ 90) ∧ classOfStr p.1 = none ∧ typeOfStr p.1 = some t
+  | _, _ => False
+
+instance (p : List Nat × Nat) : Decidable (typeRowOK p) := by
+  unfold typeRowOK; split <;> infer_instance
+
+theorem typeTable_ok : ∀ p ∈ typeTable, typeRowOK p := by decide
 
 theorem typeCode_facts {u : List Nat} {code : Nat} (h : typeCode u = some code) :
     ∃ t, rtypeOfCode code = some t ∧ (∃ x r, u = x :: r ∧ 65 ≤ x ∧ x ≤ 90) ∧
       classOfStr u = none ∧ typeOfStr u = some t := by
-  unfold typeCode at h
-  repeat' split at h
-  all_goals first
-    | (cases h; done)
-    | (cases h; subst_vars; exact ⟨_, rfl, ⟨_, _, rfl, by decide⟩, by decide, by decide⟩)
+  have hrow := typeTable_ok _ (lookup_mem_gen h)
+  unfold typeRowOK at hrow
+  simp only at hrow
+  split at hrow
+  · rename_i a1 a2 a3 a4 a5 a6
+    exact ⟨a3, a6, ⟨a4, a5, rfl, hrow.1⟩, hrow.2.1, hrow.2.2⟩
+  · exact absurd hrow id
 
 theorem type_item {d : List Nat} {code : Nat} (h : typeCode (Spec.MasterFile.upper d) = some code) :
     ∃ t, rtypeOfCode code = some t ∧ parseTtl d = none ∧ classOfStr (ZoneParse.upper d) = none ∧
